@@ -307,15 +307,24 @@ func runFuzz(t *testing.T, sched simrt.Schedule, prog fzProg) ([]Violation, RunS
 		}
 		// every request with an id that reached the server must have been answered
 		for _, c := range w.Clients {
-			// dispatch-level refusals (before the handler knows the id) are anonymous error {ctrl}s:
-			// match each to the earliest still unanswered request sent before it.
+			// dispatch-level refusals (before the handler knows the id) are anonymous error {ctrl}s. Which
+			// request each one answers is not recorded on the wire, so ask only whether SOME assignment of
+			// anonymous errors to the unanswered well-formed requests exists (a frame can answer a request
+			// only if it arrived after the request was sent): latest request takes the latest free frame.
+			// Mutated requests are left out: their replies may also be anonymous, which only makes the check
+			// more lenient, never wrong.
 			used := map[int]bool{}
-			for _, s := range c.Sents {
-				if s.Id == "" || s.Answered || s.Msg == nil {
+			for si := len(c.Sents) - 1; si >= 0; si-- {
+				s := c.Sents[si]
+				if s.Id == "" || s.Answered || s.Msg == nil || s.Msg.Note != nil || (s.Op != nil && (s.Op.Raw != nil || s.Op.Mut != 0)) {
 					continue
 				}
-				for fi, f := range c.Frames {
-					if !used[fi] && f.Ev > s.Ev && f.Msg.Ctrl != nil && f.Msg.Ctrl.Id == "" && f.Msg.Ctrl.Code >= 400 {
+				for fi := len(c.Frames) - 1; fi >= 0; fi-- {
+					f := c.Frames[fi]
+					if f.Ev <= s.Ev {
+						break
+					}
+					if !used[fi] && f.Msg.Ctrl != nil && f.Msg.Ctrl.Id == "" && f.Msg.Ctrl.Code >= 400 {
 						used[fi] = true
 						s.Answered, s.Code = true, f.Msg.Ctrl.Code
 						break
@@ -339,7 +348,13 @@ func runFuzz(t *testing.T, sched simrt.Schedule, prog fzProg) ([]Violation, RunS
 					} else if !c.Connected {
 						continue
 					} else {
-						out = append(out, vio("C13", "unanswered "+kind, "request %s was never answered: %s", s.Id, canon(s.Msg)))
+						tail := ""
+						for _, f := range c.Frames {
+							if f.Ev > s.Ev && len(tail) < 600 {
+								tail += " | " + frameSummary(f.Msg)
+							}
+						}
+						out = append(out, vio("C13", "unanswered "+kind, "request %s was never answered: %s; frames after it:%s", s.Id, canon(s.Msg), tail))
 					}
 				}
 			}
